@@ -4,10 +4,13 @@
 //
 //	line <withid> <unix-ns> <tag-hex> <id> <f0,...,f9>        lines.go   real appendPhout (verif hook)
 //	setters <unix-ns> <tag-hex> <id> <9 values>               lines.go   public setters + Sample.String()
-//	aggr <fmt> <Q> <G> <per> <mode> <delay-ms> <buf> <salt> [<stall-ms> [<old>]]   aggr.go   real aggregators under G reporters
+//	aggr <fmt> <Q> <G> <per> <mode> <delay-ms> <buf> <salt> [<stall-ms> [<old> [<dest>]]]   aggr.go   real aggregators under G reporters
 //	engine <fmt> <instances> <ammo> <Q> <buf> [<ramp/s> <shot-us>]  engine.go  real engine, normal end of run (optionally instances started over time, slow shots)
-//	signal <INT|TERM> <delay-ms> <instances> <work-us> <buf>  signal.go  pandora-verif subprocess + signal
-//	fail <after-shots> <instances> <work-us> <buf>            signal.go  pandora-verif subprocess, gun fault mid-run (failed-run exit path)
+//	signal <INT|TERM> <delay-ms> <instances> <work-us> <buf> [<dest>]  signal.go  pandora-verif subprocess + signal
+//	fail <after-shots> <instances> <work-us> <buf> [<dest>]   signal.go  pandora-verif subprocess, gun fault mid-run (failed-run exit path)
+//	end <shots> <instances> <work-us> <buf> <dest>            signal.go  pandora-verif subprocess, the run ends by itself (normal exit path)
+//
+// dest (aggr, signal, fail, end): file | stdout (| stderr for the encoder aggregators): where the results go.
 package main
 
 import (
@@ -32,6 +35,8 @@ func runCase(c string) string {
 		return runSignal(f)
 	case "fail":
 		return runFail(f)
+	case "end":
+		return runEnd(f)
 	}
 	return "unknown-case"
 }
@@ -43,6 +48,7 @@ func gen(r *vh.Rand, tier string) []string {
 	out = append(out, genEngine(r, tier)...)
 	out = append(out, genSignal(r, tier)...)
 	out = append(out, genFail(r, tier)...)
+	out = append(out, genEnd(r, tier)...)
 	return out
 }
 
